@@ -208,6 +208,10 @@ type Check struct {
 	QuickCap, ThoroughCap time.Duration
 }
 
+// Solo, when set, runs one project given as JSON in this (fresh) process and returns a digest of
+// everything observable; `vcheck solo <json>` prints it (used by C03 for fresh-process references).
+var Solo func(projectJSON string) string
+
 var registry = map[string]*Check{}
 
 func Register(c *Check)       { registry[c.ID] = c }
